@@ -958,7 +958,21 @@ func (in *Interp) binary(st *State, x *ast.BinaryExpr) Val {
 		if b.IsConst() && b.C >= 0 && b.C < 62 {
 			r = a.Scale(1 << uint(b.C))
 		}
+	case token.AND_NOT:
+		// (y + 7) &^ 7: y rounded up to a multiple of 8
+		if b.IsConst() && b.C == 7 {
+			r = Round8(a.AddC(-7))
+		}
 	case token.AND:
+		// (y + 7) & ^7 (the mask written as a constant)
+		if b.IsConst() && (b.C == -8 || b.C == 0xfff8 || b.C == 0xfffffff8 || b.C == 0xf8) {
+			if b.C == -8 || a.NonNeg() {
+				if u, ok := a.UpperBound(); b.C == -8 || (ok && u <= b.C+7) {
+					r = Round8(a.AddC(-7))
+					break
+				}
+			}
+		}
 		// x & m is bounded by both operands
 		r = Opq("(" + a.String() + ")&(" + b.String() + ")")
 		bound := int64(-1)
